@@ -2,7 +2,7 @@
 import os, sys
 sys.path.insert(0, os.path.dirname(__file__))
 import importlib.util
-import llc
+import llc, lle
 def _load(name):
     sp = importlib.util.spec_from_file_location(name, os.path.join(os.path.dirname(__file__), name + '.py'))
     m = importlib.util.module_from_spec(sp); sp.loader.exec_module(m); return m
@@ -11,6 +11,8 @@ UNITS = [llc.unit('C21_CLAUSES', replay=dict(src='replay/c21_replay.cpp', cxxfla
                                 'bluetoe/link_layer/delta_time.cpp', 'bluetoe/link_layer/channel_map.cpp', 'bluetoe/link_layer/connection_details.cpp', 'bluetoe/utility/address.cpp']))]
 # peripheral latency never skips a pending instant: plan_next_connection_event (contract stated in C23.py)
 UNITS += [dict(u, enforce=['plan_next_connection_event']) for u in _load('C23').UNITS if u['name'] == 'plan_next']
+# the call order in end_event / timeout (real bodies): received data, plan the next event with the pending instant, apply the pending indication for the NEW event counter; handle_phy_request defers LL_PHY_UPDATE_IND
+UNITS += [lle.unit(['ll_timeout', 'll_end_event', 'valid_phy_encoding', 'handle_phy_request'])]
 META = dict(
     level='other',
     explanation="link_layer<>::handle_ll_control_data and handle_pending_ll_control (link_layer.hpp, real bodies, every PDU, every connection event counter incl. wrap around): an "
@@ -19,9 +21,13 @@ META = dict(
                 "a pending indication exactly when e equals its instant - channel map reset with the map octets of that PDU, connection update parsed from that PDU's body "
                 "(state connection_changed and the changed call back, or disconnect if the parameters are invalid, C22) - and clears it; for any other e nothing happens. "
                 "plan_next_connection_event (peripheral_latency.hpp, contract in C23.py) never advances the event counter beyond a pending instant. Together: the block "
-                "handle_received_data() puts on further PDUs while an indication is pending ends at the instant.",
-    assumptions=["NOT extracted: end_event / handle_received_data (the call order 'received data, plan next event, handle_pending_ll_control( new counter )' and the early return "
-                 "while an indication is pending are read, not proved) and phy_update_request_impl::handle_phy_request / handle_pending_phy_request (LL_PHY_UPDATE_IND's instant)",
+                "handle_received_data() puts on further PDUs while an indication is pending ends at the instant. end_event / timeout (real bodies, callees abstract, the ORDER of "
+                "the calls recorded): received data is handled first, then the next connection event is planned with ( an indication is pending, its instant ) handed to "
+                "plan_next_connection_event, then handle_pending_ll_control is asked with the event counter AFTER planning, then the event is set up (or the link ends). "
+                "phy_update_request_impl::handle_phy_request (real body): a valid LL_PHY_UPDATE_IND is kept pending with the instant it carries (or reported at once if no PHY "
+                "changes), never answered.",
+    assumptions=["NOT extracted: handle_received_data (the early return while an indication is pending is read, not proved), handle_pending_phy_request; an LL_PHY_UPDATE_IND whose "
+                 "instant has passed is NOT checked by handle_phy_request (no 'instant passed' for PHY updates) - not claimed",
                  "the PDU layout is the default one; callees (channel map, timing parameter parser, call backs) abstract with symbolic results"],
     trusted_base=["radio / event scheduling"],
 )
